@@ -31,6 +31,11 @@ import (
 type c15rCase struct {
 	Cfg  c15ref.Config  `json:"cfg"`
 	Only *[]c15ref.Pair `json:"only,omitempty"` // replay: this criteria map only
+	// wide scope (see c15ref "wide scope"): the criteria maps are derived from
+	// the configuration; replay = configuration + criteria key set (every value
+	// assignment of it re-asked)
+	Wide     *c15ref.WideSpec `json:"wide,omitempty"`
+	OnlyKeys *[]string        `json:"only_keys,omitempty"`
 }
 
 type c15rCtx struct{ mmc api.MetadataMatchCriteria }
@@ -48,6 +53,8 @@ type c15rEnv struct {
 	crits [][]c15ref.Pair
 	seenD map[string]bool
 	seenO map[string]bool
+	wideKey   string
+	wideCrits [][]c15ref.Pair
 }
 
 func (e *c15rEnv) info(c *c15ref.Config) types.ClusterInfo {
@@ -150,14 +157,46 @@ func c15rCheck(e *c15rEnv, p *vreport.Part, c c15rCase) {
 		return
 	}
 	crits := e.crits
-	if c.Only != nil {
+	switch {
+	case c.Only != nil:
 		crits = [][]c15ref.Pair{*c.Only}
-	} else {
+	case c.Wide != nil:
+		// derived from hosts, selectors and spec only: reused over the fallback alternatives
+		wk := ""
+		if c.OnlyKeys == nil {
+			wk = fmt.Sprintf("%q|%q|%q|%v", c.Cfg.Hosts, c.Cfg.Selectors, c.Wide.P, c.Wide.AllKeySets)
+		}
+		if wk != "" && wk == e.wideKey {
+			crits = e.wideCrits
+		} else {
+			crits = nil
+			for _, pr := range c15ref.WideProbes(&c.Cfg, *c.Wide, c.OnlyKeys) {
+				if pr.Sorted() { // a map has no order: the reversed-order probes are the same map
+					crits = append(crits, pr.Crit)
+				}
+			}
+			if c.OnlyKeys == nil {
+				e.wideKey, e.wideCrits = wk, crits
+			}
+		}
+		if c.OnlyKeys == nil {
+			p.EvalN(len(crits) - 1)
+		}
+	default:
 		p.EvalN(len(crits) - 1)
 	}
 	for _, crit := range crits {
 		crit := crit
-		only := func() c15rCase { cq := c; cq.Only = &crit; return cq }
+		only := func() c15rCase {
+			cq := c
+			if c.Wide != nil {
+				ks := c15ref.CritKeys(crit)
+				cq.OnlyKeys = &ks
+				return cq
+			}
+			cq.Only = &crit
+			return cq
+		}
 		exp := c15ref.Reference(&c.Cfg, crit)
 		if dk := c15ref.ClassCode(&c.Cfg, exp); !e.seenD[dk] {
 			e.seenD[dk] = true
@@ -225,4 +264,52 @@ func TestVerifC15RouterCriteria(t *testing.T) {
 	p.End(complete,
 		fmt.Sprintf("host metadata keys %v x values %v incl. absent; all host multisets of size <=%d; selectors: all lists of 1..2 different entries of [[a] [b] [a b] [b a]]; fallback {none, any-endpoint, default-subset {} / {a:1} / {a:1,b:2} / {b:9}}; criteria: every map {a,b,z} -> {absent,1,2,9} turned into criteria by router.NewMetadataMatchCriteriaImpl; inner balancer round-robin; all hosts healthy", keys, values, maxHosts),
 		"complete cartesian product; each (configuration, criteria map) probes HostNum, IsExistsHosts and n+1 successive ChooseHost on both builders through exported API only and is compared with the reference written from the statement; distinct/outcomes as in the in-package part")
+}
+
+// Wide scope through the router's criteria: selectors of every size 1..8 over
+// order-trap key names (upper/lower case, prefixes, "k10" < "k2"), the route's
+// metadata_match map turned into criteria by router.NewMetadataMatchCriteriaImpl
+// (map iteration order -> sort): the balancer's answer must not depend on the
+// order the map was written / iterated in.
+func TestVerifC15RouterCriteriaWide(t *testing.T) {
+	p := vreport.Begin("C15", "router-criteria-wide-selectors-1to8", 10*time.Minute)
+	b := c15ref.WideBound{Sizes: []int{1, 2, 3, 4, 5, 6, 7, 8}, Bases: []string{"prefix"}, Spellings: []string{"rotated"},
+		SingleVals: 3, PairVals: 2, Extras: []bool{true}}
+	if vreport.Thorough() {
+		b.Bases = []string{"prefix", "suffix"}
+		b.Spellings = []string{"sorted", "rotated"}
+	}
+	e := &c15rEnv{infos: map[string]types.ClusterInfo{}, hosts: map[string]types.Host{}, seenD: map[string]bool{}, seenO: map[string]bool{}}
+	si, sn := vreport.Shard()
+	complete := vreport.Run(p, func(yield func(c15rCase) bool) {
+		idx := 0
+		each := func(cfg c15ref.Config, spec c15ref.WideSpec) bool {
+			for _, s := range cfg.Selectors {
+				if len(s) == 0 {
+					return true // empty selector entry: building is the in-package part's business (one defect, one key)
+				}
+			}
+			idx++
+			if idx%sn != si {
+				return true
+			}
+			spec2 := spec
+			return yield(c15rCase{Cfg: cfg, Wide: &spec2})
+		}
+		if c15ref.WideConfigs(b, each) {
+			c15ref.ShortcutConfigs(each)
+		}
+	}, func(p *vreport.Part, c c15rCase) {
+		c15rCheck(e, p, c)
+		if p.WantSample() {
+			s := c
+			if s.OnlyKeys == nil && s.Wide != nil && s.Wide.P != nil {
+				ks := append([]string{}, s.Wide.P...)
+				s.OnlyKeys = &ks
+			}
+			p.Sample(s)
+		}
+	})
+	p.End(complete, b.String()+" (sorted criteria only: the criteria are a map here); plus the hand-written shortcut configurations of the in-package part (except the one with an empty selector entry); criteria maps turned into criteria by router.NewMetadataMatchCriteriaImpl; inner balancer round-robin; all hosts healthy",
+		"complete product; each (configuration, criteria map) probes HostNum, IsExistsHosts and n+1 successive ChooseHost on both builders through exported API only and is compared with the reference written from the statement; a violation's replayable case is the configuration + the criteria key set")
 }
